@@ -43,6 +43,8 @@ func main() {
 		os.Exit(mdnsfuzzMain(os.Args[2:]))
 	case "datapipe":
 		os.Exit(datapipeMain(os.Args[2:]))
+	case "notifystress":
+		os.Exit(notifystressMain(os.Args[2:]))
 	case "userrace":
 		os.Exit(userraceMain(os.Args[2:]))
 	case "regrace":
